@@ -240,7 +240,7 @@ class Source:
         if op is None:
             raise AnchorError('fn %s has no body' % fnpath)
         res = []
-        for mm in re.finditer(regex, self.text[op:cl]):
+        for mm in re.finditer(regex, self.text[op:cl], re.M):
             a = op + mm.start()
             if self.m[a] != self.text[a]:
                 continue  # inside comment / string
